@@ -161,13 +161,3 @@ Definition handshake_name (prefix : list N) (rand_seed : N) (topdomain : list N)
 (* send_upenctest(s): "z" + CMC + s (<= 128) + "." + topdomain *)
 Definition upenctest_name (s : list N) (rand_seed : N) (topdomain : list N) : list N :=
   122 :: cmc3 rand_seed ++ firstn 128 s ++ [DOT] ++ topdomain.
-
-(* PROVISIONAL (until Domain.v from the C17 work is wired in): data length of a query name under a
-   plain (non-wildcard) domain -- case-insensitive suffix at a label boundary *)
-Definition lcase (ch : N) : N := if (65 <=? ch) && (ch <=? 90) then ch + 32 else ch.
-Definition plain_datalen (q d : list N) : option nat :=
-  if (length q <? length d)%nat || (length d <? 3)%nat then None else
-  let n := (length q - length d)%nat in
-  if forallb (fun p => lcase (fst p) =? lcase (snd p)) (combine (skipn n q) d)
-     && ((n =? 0)%nat || (nth (n - 1) q 0 =? DOT))
-  then Some n else None.
